@@ -20,7 +20,7 @@ def body(history):
 
 
 def plan(tier):
-    nshards, n, steps = (16, 1200, 25) if tier == "quick" else (16, 2500, 50)
+    nshards, n, steps = (16, 1200, 25) if tier == "quick" else (16, 25000, 60)
     return [{"name": "hist%d" % i, "n": n, "steps": steps} for i in range(nshards)]
 
 
